@@ -1182,9 +1182,20 @@ def _fuse_generator_loops(fn: ast.FunctionDef) -> bool:
                     if isinstance(prev, ast.Assign) and len(prev.targets) == 1 and isinstance(prev.targets[0], ast.Name) \
                             and prev.targets[0].id == st.iter.id and isinstance(prev.value, ast.GeneratorExp):
                         gen, drop = prev.value, i - 1
+                    elif isinstance(prev, ast.Assign) and len(prev.targets) == 1 and isinstance(prev.targets[0], ast.Name) \
+                            and prev.targets[0].id == st.iter.id and isinstance(prev.value, ast.ListComp) and len(prev.value.generators) == 1:
+                        # a list built only to be looped over once: the eager evaluation differs from the fused loop only
+                        # if the loop body touches what the selection reads -- refused when the body mentions any of those names
+                        g0_ = prev.value.generators[0]
+                        tnames = {n.id for n in ast.walk(g0_.target) if isinstance(n, ast.Name)}
+                        read = {n.id for part in [g0_.iter] + g0_.ifs for n in ast.walk(part) if isinstance(n, ast.Name)} - tnames
+                        body_names = {n.id for b_ in st.body for n in ast.walk(b_) if isinstance(n, ast.Name)}
+                        if not (read & body_names) and not (tnames & {n.id for n in ast.walk(st.target) if isinstance(n, ast.Name)} - tnames):
+                            gen, drop = prev.value, i - 1
                 if gen is not None and len(gen.generators) == 1 and not gen.generators[0].is_async:
                     g0 = gen.generators[0]
-                    inner: List[ast.stmt] = [ast.Assign(targets=[st.target], value=gen.elt)] + st.body
+                    same = ast.unparse(st.target) == ast.unparse(gen.elt)
+                    inner: List[ast.stmt] = ([] if same else [ast.Assign(targets=[st.target], value=gen.elt)]) + st.body
                     for c in reversed(g0.ifs):
                         inner = [ast.If(test=c, body=inner, orelse=[])]
                     loop = ast.For(target=g0.target, iter=g0.iter, body=inner, orelse=[], type_comment=None)
